@@ -244,12 +244,12 @@ def field_writes(body, blocks, base_locals):
             if s["k"] == "assign" and s["place"]["l"] in base_locals:
                 fs = [e["n"] for e in s["place"]["p"] if isinstance(e, dict) and "f" in e and e["n"] is not None]
                 if fs:
-                    out.append((fs[0], bb))
+                    out.append((fs[-1], bb))        # innermost named field: `self.queue.position` writes `position`
         t = blk["t"]
         if t["k"] == "call" and t["dest"]["l"] in base_locals:
             fs = [e["n"] for e in t["dest"]["p"] if isinstance(e, dict) and "f" in e and e["n"] is not None]
             if fs:
-                out.append((fs[0], bb))
+                out.append((fs[-1], bb))
     return out
 
 
